@@ -210,7 +210,7 @@ ROW_IDIOMS = {
     "np.delete(P, mask, axis=0)": "out = np.delete(points, (points != soma).any(axis=1), axis=0)",
     "np.delete(P, 0, axis=0)": "out = np.delete(points, 0, axis=0)",
     "np.delete(P, -1, axis=0)": "out = np.delete(points, -1, axis=0)",
-    "squared distance to the soma > c": "keep = ((points - soma) ** 2).sum(axis=1) > 0.25\nout = points[keep]",
+    "squared distance to the soma > c": "keep = ((points - soma) ** 2).sum(axis=1) > 0.1\nout = points[keep]",
     "P[np.flatnonzero(np.any(np.abs(P - soma) > c, axis=1))]": "out = points[np.flatnonzero(np.any(np.abs(points - soma) > 0.3, axis=1))]",
     "P[1:-1]": "out = points[1:-1]",
     "P[(P[:, 0] > soma[0]) & ~(P[:, 2] < soma[2])]": "out = points[(points[:, 0] > soma[0]) & ~(points[:, 2] < soma[2])]",
@@ -220,7 +220,8 @@ ROW_IDIOMS = {
 
 def check_rows(cases, rng):
     """every idiom on random small clouds around a soma at several distances from the origin (with points at / next to the soma and duplicate points):
-    numpy's result satisfies what the model assumes about its result, and no other (k, 3) array does"""
+    numpy's result satisfies what the model assumes about its result, and no other (k, 3) array does.  (Thresholds are chosen away from the values the steps
+    produce: on a boundary the float64 evaluation of numpy and the exact evaluation over the reals may differ - "floats are reals" is the engine's standing assumption.)"""
     from pyvc.interp import Frame
     from pyvc.values import NArr
 
